@@ -156,6 +156,14 @@ func runVerify(prop, funcPat string, timeout int, overlay map[string][]byte) (*v
 		sel = append(sel, c)
 		pkgSet[c.PkgPath] = true
 	}
+	for pp := range pkgSet {
+		for _, extra := range cs.LoadAlso[pp] {
+			if !strings.HasPrefix(extra, modPath) {
+				extra = modPath + "/" + strings.TrimPrefix(extra, "/")
+			}
+			pkgSet[extra] = true
+		}
+	}
 	sort.Slice(sel, func(i, j int) bool { return sel[i].PkgPath+sel[i].Key < sel[j].PkgPath+sel[j].Key })
 	var pkgPaths []string
 	for p := range pkgSet {
